@@ -313,6 +313,14 @@ def radix50_literal(ctx):
 
     string = string.upper()
 
+    if any(char not in radix50.TABLE for char in string):
+        # The case-insensitive regex lets a few non-ASCII letters through (e.g. U+212A)
+        reports.error(
+            "invalid-string",
+            (ctx_start, ctx, "This radix-50 literal contains a character outside the radix-50 alphabet.")
+        )
+        string = ""
+
     return types.Number(ctx_start, ctx, f"^R{string}", radix50.pack_to_int(string), is_valid_label=False)
 
 
